@@ -14,7 +14,7 @@ def run(rep):
     rep.rule = ('(races, qe-native c20) virtual processes as threads under hook H4 (own pid => own staging directory and no shared build lock; own QE_IPC_CACHE mode); every hook point before an operation on shared file-system state '
                 '(source metadata, both .complete checks, build lock, staging, remove of the final directory, rename into place, loser clean-up, each row-group open) blocks until the explorer grants it; all schedules up to a '
                 'preemption bound, each on a fresh directory with a 2-row-group Parquet file; configurations: builder+builder (cold, stale sidecar present), builder+reader (cold, stale, fresh), two builders in ONE process '
-                '(real build mutex), builder+builder+reader%s; each virtual process runs the engine's own ParquetTable::scan on a private one-worker rayon pool that carries its identity; oracle per schedule: every scan returns exactly the table's rows (through the sidecar or through the Parquet fallback) and never fails; '
+                '(real build mutex), builder+builder+reader%s; each virtual process runs the engine-side ParquetTable::scan itself on a private one-worker rayon pool that carries its identity; oracle per schedule: every scan returns exactly the rows of the table (through the sidecar or through the Parquet fallback) and never fails; '
                 'afterwards the directory holds exactly rg_*.arrow + .complete, no staging directory is left, and a later auto-mode reader reads the table. '
                 '(invisibility) the C04 statements over a dictionary-eligible and a dictionary-free Parquet table x row-group sizes, answered by a QE_IPC_CACHE=0 process, a QE_IPC_CACHE=1 process cold then warm, '
                 'and an auto-mode process that finds the sidecars the builder left; all must equal the in-memory answer'
